@@ -77,14 +77,17 @@ def model_quoted():
     """sheets whose titles need quoting (apostrophe + lower case, blank, digit first), reached only through references."""
     K, cell, rng, op, fn, num, const = M.K, M.cell, M.rng, M.op, M.fn, M.num, M.const
     q, w, d = "Bob's data", 'my sheet', '2nd'
+    u = 'Straße'          # upper() changes the length, lower() of that does not give the title back
     cells = {
+        K(u, 'A1'): const(('n', 70.0)), K(u, 'B1'): op('+', cell(u, 'A1'), num(3)), K('Summary', 'B4'): op('*', cell(u, 'B1'), num(1)),
+        K('Summary', 'B5'): fn('SUM', rng(u, 'A1:B1')),
         K(q, 'A1'): const(('n', 10.0)), K(q, 'A2'): const(('n', 20.0)), K(q, 'B3'): op('+', cell(q, 'A1'), cell(q, 'A2')),
         K(w, 'A1'): const(('n', 3.0)), K(w, 'B1'): op('*', cell(w, 'A1'), cell(q, 'B3')),
         K(d, 'A1'): const(('n', 4.0)), K(d, 'B1'): fn('SUM', rng(q, 'A1:A2'), cell(d, 'A1')),
         K('Summary', 'B1'): op('*', cell(q, 'B3'), num(2)), K('Summary', 'B2'): fn('SUM', rng(q, 'A1:A2')),
         K('Summary', 'B3'): op('+', cell(w, 'B1'), cell(d, 'B1')),
     }
-    return {'cells': cells, 'arrays': {}, 'names': {}, 'sheets': [[M.B, 'Summary'], [M.B, q], [M.B, w], [M.B, d]]}
+    return {'cells': cells, 'arrays': {}, 'names': {}, 'sheets': [[M.B, 'Summary'], [M.B, q], [M.B, w], [M.B, d], [M.B, u]]}
 
 
 def model_spillpast():
@@ -97,6 +100,16 @@ def model_spillpast():
         K('S', 'C1'): op('*', cell('S', 'J2'), num(3)), K('S', 'C2'): fn('SUM', rng('S', 'F4:F6'), cell('S', 'K2')),
     }
     arrays = {K('S', 'F1:F6'): op('+', op('*', cell('S', 'A1'), num(10)), cell('S', 'A2')), K('S', 'G2:K2'): op('*', cell('S', 'A2'), num(5))}
+    return {'cells': cells, 'arrays': arrays, 'names': {}, 'sheets': [[M.B, 'S']]}
+
+
+def model_multispill():
+    """one referenced range overlapped by four array-formula blocks whose anchors all lie outside it."""
+    K, cell, rng, op, fn, num, const = M.K, M.cell, M.rng, M.op, M.fn, M.num, M.const
+    cells = {K('S', 'A1'): const(('n', 1.0)), K('S', 'A2'): const(('n', 2.0)),
+             K('S', 'H1'): fn('SUM', rng('S', 'D2:G3')), K('S', 'H2'): op('+', cell('S', 'E2'), cell('S', 'G3'))}
+    arrays = {K('S', 'D1:D3'): op('*', cell('S', 'A1'), num(5)), K('S', 'E1:E2'): op('*', cell('S', 'A2'), num(50)),
+              K('S', 'F1:F3'): op('*', cell('S', 'A1'), num(500)), K('S', 'G1:G4'): op('*', cell('S', 'A2'), num(5000))}
     return {'cells': cells, 'arrays': arrays, 'names': {}, 'sheets': [[M.B, 'S']]}
 
 
@@ -117,7 +130,7 @@ def model_dangling(H=M.B, C=M.C):
     return {'cells': cells, 'arrays': {}, 'names': {}, 'sheets': [[H, 'Main'], [C, 'Alpha'], [C, 'Zeta']], 'strict_sheets': True}
 
 
-FIXED = dict(M.MODELS, spillpast=model_spillpast, dangling=model_dangling, dangling2=lambda: model_dangling(M.C, M.B), anchor=model_anchor, col=model_col, samesheet=model_samesheet, samesheet2=lambda: model_samesheet(M.C, M.B),
+FIXED = dict(M.MODELS, multispill=model_multispill, spillpast=model_spillpast, dangling=model_dangling, dangling2=lambda: model_dangling(M.C, M.B), anchor=model_anchor, col=model_col, samesheet=model_samesheet, samesheet2=lambda: model_samesheet(M.C, M.B),
              longspill=model_longspill, quoted=model_quoted)
 
 
